@@ -26,6 +26,8 @@ Definition data_of (d : data_spec) : list N :=
   | DZero n => repeat 0 (N.to_nat n)
   end.
 
+Inductive sop : Type := SA (len : N) | SC (id dest : N).
+
 Inductive call : Type :=
 (* a host function reading the (ptr,len) pairs in order; visible = the runtime receives the vectors *)
 | CHost (name : string) (visible : bool) (pages seed : N) (pairs : list (N * N)) (o : obs)
@@ -40,7 +42,12 @@ Inductive call : Type :=
 (* same history, then the live buffer (at least `len` bytes) is consumed into `dest`; the instance's
    memory has at most `pages` pages (MAX_MEMORY_SIZE_IN_PAGES, enforced by the validator): a range
    outside the largest memory is outside every memory *)
-| CBufPtr (prior max pages dest len : N) (o : obs).
+| CBufPtr (prior max pages dest len : N) (o : obs)
+(* engine level, a straight-line script in one call frame of the real ScryptoRuntime: the frame starts
+   with the argument buffer (`args` bytes, id 0) live; SA = a host call allocating a buffer of `len`
+   bytes, SC = buffer_consume(id, dest) into a memory of `pages` pages; the observation is the first
+   error (a host error traps the frame) or success *)
+| CBufScript (max pages args : N) (ops : list sop) (o : obs).
 
 Definition nseq (n : N) : list N := map N.of_nat (seq 0 (N.to_nat n)).
 Definition prior_ops (prior : N) : list bop := flat_map (fun k => [BAlloc []; BConsume k]) (nseq prior).
@@ -93,6 +100,23 @@ Definition obs_of_reads (visible : bool) (r : res (list (list N))) : obs :=
 Definition obs_of_unit (r : res unit) : obs :=
   match r with Ok _ => ObsOk [] | Err e => ObsErr e | Panic => ObsPanic end.
 
+Fixpoint run_script (st : bufs) (m : mem) (ops : list sop) : obs :=
+  match ops with
+  | [] => ObsOk []
+  | SA len :: t =>
+    match allocate_buffer st (repeat 0 (N.to_nat len)) with
+    | (Ok _, st') => run_script st' m t
+    | (Err e, _) => ObsErr e
+    | (Panic, _) => ObsPanic
+    end
+  | SC id dest :: t =>
+    match consume_buffer st m id dest with
+    | (Ok _, st', m') => run_script st' m' t
+    | (Err e, _, _) => ObsErr e
+    | (Panic, _, _) => ObsPanic
+    end
+  end.
+
 (* model outcome and memory after the call *)
 Definition run_call (c : call) : obs * mem :=
   match c with
@@ -117,11 +141,13 @@ Definition run_call (c : call) : obs * mem :=
     | Some st => let '(r, _, _) := consume_buffer st (pat_mem pages 0) prior dest in (obs_of_unit r, pat_mem 0 0)
     | None => (ObsOther, pat_mem 0 0)
     end
+  | CBufScript max pages args ops _ =>
+    (run_script (bufs_new max) (pat_mem pages 0) (SA args :: ops), pat_mem 0 0)
   end.
 Definition observed (c : call) : obs :=
   match c with
   | CHost _ _ _ _ _ o => o | CReturn _ _ _ o => o | CWrite _ _ _ _ _ _ _ o => o
-  | CBufTx _ _ _ o => o | CBufPtr _ _ _ _ _ o => o
+  | CBufTx _ _ _ o => o | CBufPtr _ _ _ _ _ o => o | CBufScript _ _ _ _ o => o
   end.
 
 Definition check (c : case) : bool :=
